@@ -40,11 +40,11 @@ def run(chk):
     chk.assume_note('stdcode::serialize(tx).len() is a symbolic length; covenant_weight_from_bytes is an uninterpreted '
                     'function of the covenant bytes (its real code is the subject of C11)')
     for shape in shapes_for(chk.tier):
-        base_fee_kernel(chk, it, shape)
-    accounting_kernel(chk, it)
+        chk.guard(base_fee_kernel, chk, it, shape)
+    chk.guard(accounting_kernel, chk, it)
     for n in ((2,) if chk.tier == 'quick' else (2, 3)):
-        accounting_kernel_batch(chk, it, n)
-    reward_kernel(chk, it)
+        chk.guard(accounting_kernel_batch, chk, it, n)
+    chk.guard(reward_kernel, chk, it)
 
 
 def base_fee_kernel(chk, it, shape):
